@@ -10,6 +10,9 @@ in any combination and order; navigation chains of length 1-4 (nav() and the K[r
 from None, an instance, a QuerySet, a list and a generator with duplicates, through association
 classes (two-hop) and reflexive associations with phrases, with filters; navigate_subtype.
 
+Construction routes: the API, and in the family `loaded` xtuml.ModelLoader (the population after a history prefix is
+written as SQL text, meta_common.Model.from_sql; the rest of the history and the queries run on the loader-built model).
+
   D  an independent relational evaluation over the dumped rows and link pairs (list comprehensions,
      Python's own stable `sorted` on key tuples; descending = ascending on negated keys).
   K  lean/PyxModel/Query.lean evaluated by the driver on the same history and queries.
@@ -24,7 +27,8 @@ PROP = 'C09'
 RULE = ('random histories (length 10-120 quick, up to 400 thorough) over 7 association shapes with plain attributes P,Q in '
         '{0,1,2}; per final state 14 generated queries covering every operator combination and navigation handle form; '
         'non-trivial: some query returned >= 2 instances, or a navigation of >= 2 steps returned something, or an '
-        'ordering had ties; distinct = distinct (shape, history, attribute values, queries)')
+        'ordering had ties; distinct = distinct (shape, history, attribute values, queries); family `loaded`: the same cases with the '
+        'first k ops (k up to the whole history) realised as SQL text loaded by xtuml.ModelLoader')
 EXHAUSTIVE = {'quick': False, 'thorough': False}
 ASSUMPTIONS = ['ordering attributes hold integers (comparing None with int raises TypeError in Python: outside the domain)',
                'lambdas are drawn from a small predicate language the model can also evaluate']
@@ -121,7 +125,24 @@ def generate(ctx):
     n = ctx.pick(5000, 60000)
     names = sorted(mc.SHAPES)
     for i in range(n):
-        r = rng.fork(i)
+        yield _case(rng.fork(i), ctx, names)
+    # family `loaded` (construction route): the state after the first k ops is built by xtuml.ModelLoader from SQL text
+    # (schema, unique indices, rows with explicit ids and referential values) instead of through the API
+    lr = ctx.rng.fork('loaded')
+    for i in range(ctx.pick(500, 6000)):
+        r = lr.fork(i)
+        case = _case(r, ctx, names)
+        schema = SHAPES[case['shape']]
+        ops = case['ops']
+        k = r.randint(len(schema['classes']), len(ops))
+        pre = mc.canonical_prefix(schema, ops[:k])
+        case['ops'] = pre + ops[k:]
+        case['route'], case['prefix'], case['fam'] = 'sql', len(pre), 'loaded'
+        yield case
+
+
+def _case(r, ctx, names):
+    if True:
         name = r.choice(names)
         schema = SHAPES[name]
         ncls = len(schema['classes'])
@@ -184,7 +205,7 @@ def generate(ctx):
                 cand = [j for j in livei if kinds[j] == k]
                 if cand:
                     queries.append(['subtype', r.choice(cand), r.choice(rels + ['R404'])])
-        yield {'shape': name, 'ops': ops, 'attrs': attrs, 'queries': queries}
+        return {'shape': name, 'ops': ops, 'attrs': attrs, 'queries': queries}
 
 
 # ---------------------------------------------------------------------------- implementation side
@@ -375,12 +396,17 @@ def expected(rel, q):
 
 def run_impl(case):
     schema = SHAPES[case['shape']]
-    model = mc.Model(schema)
     # unique identifiers over the plain attributes: the library records but never enforces them, so states
     # with duplicate identifier values are reachable and queries must still return every match
-    for c in schema['classes']:
-        model.m.define_unique_identifier(c['name'], 'I7', 'P')
-        model.m.define_unique_identifier(c['name'], 'I8', 'P', 'Q')
+    k0 = case['prefix'] if case.get('route') == 'sql' else 0
+    if k0:
+        idents = [(k, nm, at) for k in range(len(schema['classes'])) for nm, at in (('I7', ['P']), ('I8', ['P', 'Q']))]
+        model = mc.Model.from_sql(schema, case['ops'][:k0], idents)
+    else:
+        model = mc.Model(schema)
+        for c in schema['classes']:
+            model.m.define_unique_identifier(c['name'], 'I7', 'P')
+            model.m.define_unique_identifier(c['name'], 'I8', 'P', 'Q')
     # "warm-up": on two thirds of the cases the SAME queries are also asked on earlier states of the model (half-way
     # through the history: selections only; before the attribute values are assigned: all of them) and their answers
     # thrown away — a result remembered from an earlier state must not leak into the answers on the final state
@@ -396,9 +422,10 @@ def run_impl(case):
             except Exception:
                 pass
     for n, op in enumerate(case['ops']):
-        if warm and n == half:
+        if warm and n == max(half, k0):
             warm_up(True)
-        model.apply(op)
+        if n >= k0:
+            model.apply(op)
     if warm:
         # other attribute values at the time of the early questions: an instance that matches a selection only LATER
         # may be created EARLIER than the one that matched when the question was first asked
@@ -411,8 +438,20 @@ def run_impl(case):
         model.insts[j].Q = q
     rel = Rel(model, case)
     obs, fails = [], []
+    # both construction routes: no instance keeps an own copy of a referential value, the identifiers are registered
+    for (i, key, v) in model.ref_copies():
+        fails.append({'sig': 'referential-copy-in-dict', 'what': 'instance %d keeps %r = %r in its own dictionary although the '
+                      'attribute is referential (route %s)' % (i, key, v, case.get('route', 'api'))})
+    for c, got_ids in zip(schema['classes'], model.identifiers()):
+        if got_ids.get('I7') != ['P'] or got_ids.get('I8') != ['P', 'Q']:
+            fails.append({'sig': 'identifier-not-registered', 'what': 'class %s has the identifiers %r, defined were I7 (P) and I8 (P, Q) '
+                          '(route %s)' % (c['name'], got_ids, case.get('route', 'api'))})
     nontrivial = False
     stats = {'warmed_up': 1} if warm else {}
+    if k0:
+        stats['fam_loaded'] = 1
+        stats['loaded_links'] = sum(1 for o in case['ops'][:k0] if o[0] == 'relate')
+        stats['loaded_whole_history'] = 1 if k0 == len(case['ops']) else 0
     for q in case['queries']:
         got = run_query(model, q)
         obs.append(got)
@@ -506,7 +545,7 @@ def shrink_candidates(case):
         c['queries'] = qs[:i] + qs[i + 1:]
         yield c
     ops = case['ops']
-    for i in range(len(ops) - 1, -1, -1):
+    for i in range(len(ops) - 1, case.get('prefix', 0) - 1, -1):
         if ops[i][0] == 'new':
             continue
         c = dict(case)
